@@ -7,6 +7,7 @@
 From Coq Require Import ZArith NArith List Bool Arith Lia.
 From LLRP Require Import Driver.Supervisor Driver.SupervisorProofs Driver.SupervisorRetry Driver.Registry Driver.RegistryProofs.
 From LLRP Require Import Driver.SupervisorFlight Driver.SupervisorFlightProofs.
+From LLRP Require Import Driver.RegistrySplit Driver.RegistrySplitProofs.
 Import ListNotations.
 
 (* 1. retries until stopped: after any finite run without Stop, a Dial is enabled — at once, or
@@ -440,3 +441,56 @@ Example C15_flight_stop_cancels_dial :
   f_log (frun flags_tree (finit true) [FDial false; FDialStart; FStop; FDialEnd true]) =
   [FLDial; FLFail; FLDial; FLPending; FLStop; FLFail; FLDone Down false].
 Proof. vm_compute. reflexivity. Qed.
+
+(* ------------------------------------------------------------------------------------------
+   "While a device is managed the service keeps trying to connect" when RemoveDevice TAKES TIME
+   (Driver/RegistrySplit.v): the removal looks the instance up and begins to stop it
+   ([SRemoveLookup]; LLRPDevice.Stop then waits for the reader's CloseConnectionResponse, up to
+   shutdownGrace) and deletes the entry when Stop has returned ([SRemoveStopDone]); AddDevice /
+   UpdateDevice / commands for the same name ([SE (RCheck c)], [SE (REnter c)]) arrive at any point.
+   [srun false] = the tree: the devices lock is held from the lookup to the deletion. *)
+
+(* the tree's removal is one critical section: every schedule is a schedule of Registry.v
+   (so all the registry theorems above hold of it), no removal is ever half done *)
+Theorem C15_tree_removal_is_one_critical_section : forall evs,
+  sbase (srun false evs) = rrun flags_repaired (flat_map to_rev evs) /\ rm (srun false evs) = None.
+Proof. exact tree_removal_atomic. Qed.
+Print Assumptions C15_tree_removal_is_one_critical_section.
+
+(* whoever is handed the registered instance is handed a running supervisor *)
+Theorem C15_registered_instance_is_live : forall evs i,
+  reg (sbase (srun false evs)) = Some i -> In i (live (sbase (srun false evs))).
+Proof. exact tree_registered_is_live. Qed.
+Print Assumptions C15_registered_instance_is_live.
+
+(* a device (re-)added after the last removal began is supervised: if some caller was answered
+   during evs2 and no removal begins in evs2, then at the end the name is registered and its
+   instance's supervisor runs -- wherever in evs1 removals began or ended *)
+Theorem C15_readded_device_is_supervised : forall evs1 evs2,
+  forallb (fun e => negb (is_removal e)) evs2 = true ->
+  length (got (sbase (srun false evs1))) < length (got (sbase (srun false (evs1 ++ evs2)))) ->
+  let s := sbase (srun false (evs1 ++ evs2)) in
+  exists i, reg s = Some i /\ In i (live s).
+Proof. exact tree_readded_is_supervised. Qed.
+Print Assumptions C15_readded_device_is_supervised.
+
+(* a removal that stops the device OUTSIDE the lock (lookup under a read lock, Stop, then delete
+   the entry if it still refers to that instance): a caller arriving while the removal waits in
+   Stop is handed the dying instance as the existing one; the removal then deletes the entry.
+   The caller was answered after the last removal began, no removal begins afterwards, and the
+   name is neither registered nor dialled; the tree on the same schedule: registered and live *)
+Theorem C15_readded_device_is_supervised_split_removal_refuted :
+  let evs1 := [SE (RCheck 0); SE (REnter 0); SRemoveLookup] in
+  let evs2 := [SE (RCheck 1); SRemoveStopDone] in
+  forallb (fun e => negb (is_removal e)) evs2 = true /\
+  got (sbase (srun true (evs1 ++ evs2))) = [(1, 0); (0, 0)] /\ got (sbase (srun true evs1)) = [(0, 0)] /\
+  reg (sbase (srun true (evs1 ++ [SE (RCheck 1)]))) = Some 0 /\ live (sbase (srun true (evs1 ++ [SE (RCheck 1)]))) = [] /\
+  reg (sbase (srun true (evs1 ++ evs2))) = None /\ live (sbase (srun true (evs1 ++ evs2))) = [] /\
+  reg (sbase (srun false (evs1 ++ evs2 ++ [SE (REnter 1)]))) = Some 1 /\ live (sbase (srun false (evs1 ++ evs2 ++ [SE (REnter 1)]))) = [1].
+Proof. vm_compute. repeat split; reflexivity. Qed.
+Print Assumptions C15_readded_device_is_supervised_split_removal_refuted.
+
+Example C15_readd_during_removal_example :
+  let evs := [SE (RCheck 0); SE (REnter 0); SRemoveLookup; SE (RCheck 1); SRemoveStopDone; SE (REnter 1); SE (RExit 0)] in
+  reg (sbase (srun false evs)) = Some 1 /\ live (sbase (srun false evs)) = [1] /\ got (sbase (srun false evs)) = [(1, 1); (0, 0)].
+Proof. vm_compute. repeat split; reflexivity. Qed.
